@@ -72,6 +72,9 @@ func main() {
 	case "consts":
 		dumpConsts()
 		return
+	case "stress":
+		stressMain(os.Args[2:])
+		return
 	case "run", "exec":
 	default:
 		fmt.Fprintln(os.Stderr, "unknown command", os.Args[1])
